@@ -512,12 +512,12 @@ def apply_buf_op(b, L, i, op):
         j = i
         while j < n and L[j] != op[1]:
             j += 1
-        return run(lambda: b.forward_until(lambda x: x == op[1])), ('ok', ''.join(L[i:j])), j
+        return run(lambda: b.forward_until(lambda x: x in op[1])), ('ok', ''.join(L[i:j])), j
     if k == 'num_forward_until':
         j = i
         while j < n and L[j] != op[1]:
             j += 1
-        return run(lambda: b.num_forward_until(lambda x: x == op[1])), ('ok', j - i), i
+        return run(lambda: b.num_forward_until(lambda x: x in op[1])), ('ok', j - i), i
     if k == 'position':
         return run(lambda: b.position), ('ok', i), i
     raise AssertionError(op)
